@@ -10,7 +10,7 @@ From Soy Require Import Spec.Text.
 From Soy Require Import Proofs.RawTextProofs.
 From Soy Require Import Model.Ast Model.Token Model.Lexer Model.Parser Generated.Tables
   Proofs.LexerProofs Proofs.LexBodyText Proofs.LexBodyTop Proofs.ParseBodyText Proofs.BodyTextMain.
-From Soy Require Import Spec.TextBody Proofs.LexTokens Proofs.LexPrintTop Proofs.LexBodyMain Proofs.BodyCmdMain.
+From Soy Require Import Spec.TextBody Proofs.LexTokens Proofs.LexPrintTop Proofs.LexBodyLit Proofs.LexBodyMain Proofs.BodyCmdMain.
 From Soy Require Import Spec.TextMix Proofs.BodyMixMain.
 From Soy Require Import Spec.TextTemplate Proofs.ParserProofs Proofs.BodyTemplateMain.
 Open Scope N_scope.
@@ -155,7 +155,8 @@ Print Assumptions C15_slashes_after_nonspace.
    concatenated, are  normalize T0 ++ char(c1) ++ normalize T1 ++ ... : each stretch normalised as a whole with
    no flagged end, each command giving exactly its character ({nil}: nothing), each literal block its text s
    verbatim (lexLiteral with strings.Index; no normalisation).  Stretches may be empty.
-   Comments inside such a body: C15_body_text_spec below.  NOT covered: "{literal }" with spaces. *)
+   Comments inside such a body: C15_body_text_spec below.  "{literal }" written with blanks before the brace is
+   covered (cmd_ok: lit_name_sp; C15_literal_blanks_exact). *)
 Theorem C15_body_special_chars_spec : forall inlen lexq unq T0 rest,
   stretch_ok true T0 -> Forall seg_ok rest ->
   exists items pos nodes st,
@@ -196,12 +197,42 @@ Proof.
   intros inlen lexq unq s Hcl.
   destruct (C15_body_special_chars_spec inlen lexq unq [] [((lit_name s, s), [])]) as (items & pos & nodes & st & A & B & C & D).
   - split; [constructor|reflexivity].
-  - constructor; [|constructor]. split; [right; split; [reflexivity|exact Hcl]|]. split; [constructor|reflexivity].
+  - constructor; [|constructor]. split; [apply cmd_ok_lit; exact Hcl|]. split; [constructor|reflexivity].
   - assert (E : body_src [] [((lit_name s, s), [])] = [123] ++ lit_name s ++ [125]) by reflexivity. rewrite E in A.
     exists items, pos, nodes, st. split; [exact A|]. split; [exact B|]. split; [exact C|]. rewrite D. unfold body_out. cbn [rest_out].
     change (normalize false false []) with (@nil N). cbn [app]. apply app_nil_r.
 Qed.
 Print Assumptions C15_literal_exact.
+
+(* the opening tag written with blanks before its brace -- {literal  }s{/literal}, spaces and tabs (lexLiteral skips
+   them; the "}" item then carries them in its text) -- is the same block: cmd_ok admits it everywhere a literal
+   block may stand, in all the template-level theorems of this file *)
+Theorem C15_literal_blanks_exact : forall inlen lexq unq sp s, Forall lit_blank sp -> lit_closed s ->
+  exists items pos nodes st,
+    lex_items is_letter_tbl is_digit_tbl (lex_budget ([123] ++ lit_name_sp sp s ++ [125])) false ([123] ++ lit_name_sp sp s ++ [125]) = Ok items /\
+    po_result (soy_file inlen lexq unq items) = POk (NList pos nodes) st /\
+    Forall is_raw nodes /\ concat (map raw_text_of nodes) = s.
+Proof.
+  intros inlen lexq unq sp s Hsp Hcl.
+  destruct (C15_body_special_chars_spec inlen lexq unq [] [((lit_name_sp sp s, s), [])]) as (items & pos & nodes & st & A & B & C & D).
+  - split; [constructor|reflexivity].
+  - constructor; [|constructor]. split; [right; exists sp; split; [exact Hsp|split; [reflexivity|exact Hcl]]|]. split; [constructor|reflexivity].
+  - assert (E : body_src [] [((lit_name_sp sp s, s), [])] = [123] ++ lit_name_sp sp s ++ [125]) by reflexivity. rewrite E in A.
+    exists items, pos, nodes, st. split; [exact A|]. split; [exact B|]. split; [exact C|]. rewrite D. unfold body_out. cbn [rest_out].
+    change (normalize false false []) with (@nil N). cbn [app]. apply app_nil_r.
+Qed.
+Print Assumptions C15_literal_blanks_exact.
+Example C15_ex_literal_blanks :
+  [123] ++ lit_name_sp [32; 9] (b "{x} //") ++ [125] = b "{literal " ++ [9] ++ b "}{x} //{/literal}" /\
+  match lex_items is_letter_tbl is_digit_tbl (lex_budget (b "{literal " ++ [9] ++ b "}{x} //{/literal}")) false (b "{literal " ++ [9] ++ b "}{x} //{/literal}") with
+  | Ok items =>
+      match po_result (soy_file 0 (fun _ => []) (fun _ => None) items) with
+      | POk (NList _ nodes) _ => concat (map raw_text_of nodes) = b "{x} //"
+      | _ => False
+      end
+  | _ => False
+  end.
+Proof. split; vm_compute; reflexivity. Qed.
 
 (* ---- body_text_spec: bodies of text, comments, special-character commands and literal blocks ---- *)
 (* For EVERY body  T0 {c1} T1 {c2} ... {cn} Tn  (source: body_src) in which every ci is a special-character command
@@ -219,7 +250,7 @@ Print Assumptions C15_literal_exact.
    comments, every piece normalised separately with a comment as a flagged end and a tag / the end of the input
    as an unflagged one.  C15_body_text_spec_partial (no tags) and C15_body_special_chars_spec (no comments) are
    instances.  What remains outside a theorem: OTHER tags as neighbours of text (print, if, msg ...: their items
-   end a text run the same way, but their parse is not part of this statement) and "{literal }" with spaces. *)
+   end a text run the same way, but their parse is not part of this statement). *)
 Theorem C15_body_text_spec : forall inlen lexq unq T0 rest out,
   mix_body_ok T0 rest -> mix_body_out T0 rest = Some out ->
   exists items pos nodes st,
@@ -260,7 +291,7 @@ Proof.
     repeat split; try (apply Hplain; vm_compute; reflexivity); try (intros _; vm_compute; reflexivity); try (intros H; discriminate H).
     - left. vm_compute. auto 12.
     - left. vm_compute. auto 12.
-    - right. split; [reflexivity|]. intros r. vm_compute. reflexivity. }
+    - apply cmd_ok_lit. intros r. vm_compute. reflexivity. }
   split; [vm_compute; reflexivity|]. split; [vm_compute; reflexivity|]. vm_compute. reflexivity.
 Qed.
 
@@ -327,7 +358,7 @@ Proof.
   { unfold mix_tpl_ok, c15_ex_tpl. cbn [fst snd]. split; [split; [apply Hplain; vm_compute; reflexivity|intros _; vm_compute; reflexivity]|].
     constructor; [|constructor; [|constructor]]; cbn [fst snd].
     - split; [left; vm_compute; auto 12|split; [apply Hplain; vm_compute; reflexivity|intros _; vm_compute; reflexivity]].
-    - split; [right; split; [reflexivity|intros r; vm_compute; reflexivity]|split; [apply Hplain; vm_compute; reflexivity|intros _; vm_compute; reflexivity]]. }
+    - split; [apply cmd_ok_lit; intros r; vm_compute; reflexivity|split; [apply Hplain; vm_compute; reflexivity|intros _; vm_compute; reflexivity]]. }
   split; [vm_compute; reflexivity|]. split; [vm_compute; reflexivity|]. vm_compute. split; reflexivity.
 Qed.
 
@@ -390,7 +421,7 @@ Proof.
   split; [split; [apply Hplain; vm_compute; reflexivity|vm_compute; reflexivity]|].
   split.
   { apply Forall_forall. intros sg Hin. unfold c15_ex_body in Hin. cbn [snd In] in Hin.
-    repeat (destruct Hin as [<-|Hin]; [split; [first [solve [left; vm_compute; auto 12] | right; split; [reflexivity|intros r; vm_compute; reflexivity]]|split; [apply Hplain; vm_compute; reflexivity|vm_compute; reflexivity]]|]).
+    repeat (destruct Hin as [<-|Hin]; [split; [first [solve [left; vm_compute; auto 12] | apply cmd_ok_lit; intros r; vm_compute; reflexivity]|split; [apply Hplain; vm_compute; reflexivity|vm_compute; reflexivity]]|]).
     contradiction. }
   split; [vm_compute; reflexivity|]. split; [vm_compute; reflexivity|]. vm_compute. reflexivity.
 Qed.
